@@ -191,11 +191,12 @@ def _whole(x):
 def tp_date(p):
     rep = tp_rep(p)
     if rep == "cal":
-        return rep, (p._year, p._month_of_year, _whole(p._day_of_month))
+        return rep, (_whole(p._year), p._month_of_year,
+                     _whole(p._day_of_month))
     if rep == "ord":
-        return rep, (p._year, _whole(p._day_of_year))
+        return rep, (_whole(p._year), _whole(p._day_of_year))
     if rep == "week":
-        return rep, (p._year, _whole(p._week_of_year),
+        return rep, (_whole(p._year), _whole(p._week_of_year),
                      _whole(p._day_of_week))
     return None, None
 
